@@ -142,6 +142,32 @@ func (ps pageSpec) render(payload string) (rendered, []string) {
 		mux := newMux(d, false, "search")
 		params.Set("q", value)
 		return get(mux, "/", params), pieces
+	case "err-query": // the raw value as query: parse errors echo parts of it
+		mux := newMux(d, false, "search")
+		params.Set("q", value)
+		return get(mux, "/search", params), pieces
+	case "err-order":
+		mux := newMux(d, false, "search")
+		params.Set("q", "r:x")
+		params.Set("order", value)
+		return get(mux, "/search", params), pieces
+	case "err-ctx":
+		mux := newMux(d, false, "search")
+		params.Set("q", "foo")
+		params.Set("ctx", value)
+		params.Set("num", value)
+		return get(mux, "/search", params), pieces
+	case "err-print-ambiguous": // two files answer the print query: the error lists their (index-controlled) names
+		mux := newMux(d, true, "search")
+		params.Set("r", "x")
+		params.Set("f", "y")
+		return get(mux, "/print", params), pieces
+	case "print-raw": // the file content is sent as is: it must not be sniffable as HTML
+		mux := newMux(d, true, "print")
+		params.Set("r", "x")
+		params.Set("f", "y")
+		params.Set("format", "raw")
+		return get(mux, "/print", params), pieces
 	case "about":
 		mux := newMux(d, false, "search")
 		return get(mux, "/about", params), pieces
@@ -176,6 +202,23 @@ func runPage(w *gen.Writer, ps pageSpec, class string) {
 	fail := func(key, msg string) {
 		if c.Go == "ok" {
 			c.Go, c.Key = msg, key
+		}
+	}
+	if strings.HasPrefix(ps.Page, "err-") || ps.Page == "print-raw" {
+		// error answers and raw content: whatever the status, a body that can contain the value must be plain text that the
+		// browser may not sniff into HTML; a 200 HTML answer goes through the skeleton comparison below
+		isHTML := attack.status == 200 && ps.Page != "print-raw"
+		if !isHTML {
+			if !strings.HasPrefix(attack.ctype, "text/plain") || !attack.nosniff {
+				fail("value-in-non-html-answer-is-sniffable:"+ps.Page, fmt.Sprintf("status %d Content-Type %q nosniff=%v", attack.status, attack.ctype, attack.nosniff))
+			}
+			w.Emit(c)
+			return
+		}
+		if calm.status != 200 { // the value happens to be a valid number / sort key: no inert baseline to compare with
+			c.Nontrivial = false
+			w.Emit(c)
+			return
 		}
 	}
 	if calm.status != 200 {
@@ -238,12 +281,12 @@ func firstDiff(a, b string) string {
 	return fmt.Sprintf("%d vs %d skeleton lines", len(la), len(lb))
 }
 
-var pageKinds = []string{"results-remote", "results-local", "repolist", "print", "searchbox", "about"}
+var pageKinds = []string{"results-remote", "results-local", "repolist", "print", "searchbox", "about", "err-query", "err-order", "err-ctx", "err-print-ambiguous", "print-raw"}
 
 func pagesFor(w *gen.Writer, r *gen.Rand, payload string, class string) {
 	for _, page := range pageKinds {
 		for _, wrapped := range []bool{false, true} {
-			if wrapped && (len(payload) > 60 || strings.Contains(payload, sent1[:3])) {
+			if wrapped && (len(payload) > 60 || strings.Contains(payload, sent1[:3]) || strings.HasPrefix(page, "err-") || page == "print-raw") {
 				continue
 			}
 			ps := pageSpec{Page: page, Payload: []byte(payload), Wrapped: wrapped,
